@@ -24,9 +24,9 @@ FAMILIES = {
 BOUNDS = ('operand pool of 65 boundary values per operand position (every type, its extremes, None, empty/nested containers); '
           'expression depth 1 (ops) / 2 (compose, 12-value pool); lazy: 5 conditions x 5 leaves per operator, every error position in '
           '4-element lists/maps; rulesets of <= 3 rules from 23 building blocks, 2 consecutive evaluations; builder: 53 function names, '
-          'all 3-sequences over 4 rule names through with_rule / with_rules, 5 symbol mixes; convert: type bounds +-1 and wrong kinds; '
-          'parse: every sequence of <= 2 (thorough: <= 3) tokens over a 56-token alphabet through Expr::parse and Rule::parse, out-of-range numerals in every numeric position, every one-character escape, unicode escape forms, non-ASCII/control characters in 12 templates; '
-          'ser: 85 values covering every serde data-model kind at its limits, nested containers, non-string keys, failing Serialize impls')
+          'all 3-sequences over 4 rule names through with_rule / with_rules, 5 symbol mixes; convert: type bounds +-1, every pool value as the source of every scalar and collection extraction, lists / maps holding every pool value, a non-convertible element at each position; '
+          'parse: every sequence of <= 2 (thorough: <= 3) tokens over a 56-token alphabet through Expr::parse and Rule::parse, out-of-range numerals in every numeric position (and, in every radix, required to be Err), every one-character escape, unicode escape forms, non-ASCII/control characters in 12 templates; '
+          'ser: 88 values covering every serde data-model kind at its limits, nested containers, non-string keys, failing Serialize impls')
 
 _build_cache = {}
 
